@@ -64,7 +64,7 @@ def dist_py(p, a, b):
 class Check(CheckBase):
     pid = "C09"
     title = "vertex reduction within tolerance"
-    bounds = {"quick": {"L1": "n = 3, 4 points; all coordinates and the tolerance (> 0) unbounded symbolic reals", "L2": "vertex lists of length 0..6, every sequence of predicate answers"},
+    bounds = {"quick": {"L1": "n = 3, 4 points; all coordinates and the tolerance (> 0) unbounded symbolic reals; windows of 8 and 12 points (thorough: 5..16) with one free vertex at every interior index, the others pinned on the chord", "L2": "vertex lists of length 0..6, every sequence of predicate answers"},
               "thorough": {"L1": "n = 3, 4, 5 points", "L2": "lists of length 0..9"}}
     outside = ["binary64 rounding (exact-real model)", "lists longer than the bound (the loop's index arithmetic is uniform in the length, not proved)",
                "the composition L1 + L2 (paper argument: the stub's contract is L1)", "tolerance <= 0 for the predicate (supersample returns before using it)"]
@@ -83,6 +83,12 @@ class Check(CheckBase):
             cs.append({"label": "L1/n%d" % n, "kind": "L1", "n": n, "split_depth": 4 if n >= 4 else None})
             if n <= 4:
                 cs.append({"label": "L1ref/n%d" % n, "kind": "L1ref", "n": n, "split_depth": 4 if n >= 4 else None})
+        # longer windows, one free vertex: every vertex but one is pinned on the chord (i, 0), the remaining one and the tolerance
+        # are symbolic.  A specialisation of L1 that stays cheap (3 unknowns) at window sizes the general case cannot reach, so a
+        # predicate that skips, strides over or stops short of some interior index of a long window is still a counterexample.
+        for n in ((8, 12) if tier == "quick" else range(5, 17)):
+            for k in range(1, n - 1):
+                cs.append({"label": "L1free/k%d/n%d" % (k, n), "kind": "L1", "n": n, "free": k})
         for m in range(0, 7 if tier == "quick" else 10):
             cs.append({"label": "L2/len%d" % m, "kind": "L2", "m": m, "split_depth": 6 if m >= 8 else None})
         cs.append({"label": "L2/tol<=0", "kind": "L2tol", "m": 4})
@@ -114,6 +120,11 @@ class Check(CheckBase):
             pts = [(run.real("x%d" % i), run.real("y%d" % i)) for i in range(n)]
             tol = run.real("tol")
             run.assume(tol > 0)
+            if "free" in case:
+                for i_, (px, py) in enumerate(pts):
+                    if i_ != case["free"]:
+                        run.assume(px == i_)
+                        run.assume(py == 0)
             orig = list(pts)
             res = pu.points_in_tolerance(pts, tol)
             if isinstance(res, SymBool):
